@@ -18,6 +18,8 @@ pub mod c01;
 pub mod canary;
 pub mod c15;
 pub mod c02;
+pub mod c07;
+pub mod c08;
 
 pub fn registry() -> Vec<(&'static str, fn())> {
     let mut v = Vec::new();
@@ -25,5 +27,7 @@ pub fn registry() -> Vec<(&'static str, fn())> {
     v.extend_from_slice(canary::LIST);
     v.extend_from_slice(c15::LIST);
     v.extend_from_slice(c02::LIST);
+    v.extend_from_slice(c07::LIST);
+    v.extend_from_slice(c08::LIST);
     v
 }
